@@ -35,7 +35,7 @@ def plan(tier):
 
     if tier == "quick":
         return dict(shards=16, examples=640, time_budget_s=420, min_nontrivial=60, env=env, shrink_cap_s=60)
-    return dict(shards=16, examples=4800, time_budget_s=3300, min_nontrivial=800, env=env)
+    return dict(shards=16, examples=4800, time_budget_s=3300, min_nontrivial=320, env=env)
 
 
 def strategy(tier, shard):
